@@ -59,7 +59,7 @@ def gen_net(rng, big=False, hyd=False):
     for i in range(nj):
         dem = []
         for _ in range(rng.choice([1, 1, 1, 2, 3])):
-            dem.append([rng.choice(bases), rng.choice([None, None, "p1", "p2"]), rng.choice([None, None, "dom", "ind"])])
+            dem.append([rng.choice(bases), rng.choice([None, None, "p1", "p2", "CONST"]), rng.choice([None, None, "dom", "ind"])])
         nodes.append(dict(name="J%d" % (i + 1), kind="J", elev=float(rng.choice([0, 5, 10, 12.5, 20, 25])),
                           xy=[float(rng.randint(-40, 40)), float(rng.randint(-40, 40))], demands=dem))
     order = [n["name"] for n in nodes if n["kind"] == "J"]
@@ -166,7 +166,7 @@ def gen_net(rng, big=False, hyd=False):
     pn = [p["name"] for p in pipes]
     if rng.random() < 0.7:
         for _ in range(rng.randint(1, 3)):
-            k = rng.choice(["time", "time", "tank", "rule"])
+            k = rng.choice(["time", "time", "tank", "rule", "pipecond"])
             tgt = rng.choice(pn + [u["name"] for u in pumps] + [v["name"] for v in valves])
             if k == "tank" and not any(n["kind"] == "T" for n in nodes):
                 k = "time"
@@ -176,12 +176,18 @@ def gen_net(rng, big=False, hyd=False):
                 controls.append(dict(kind="tank", target=tgt, status=rng.choice(["CLOSED", "OPEN"]),
                                      ref=rng.choice([n["name"] for n in nodes if n["kind"] == "T"]), level=rng.choice([1.0, 2.0, 4.5]),
                                      rel=rng.choice(["<", ">"])))
+            elif k == "pipecond":  # LINK x FLOW ABOVE y: the pipe is referenced by the CONDITION only
+                controls.append(dict(kind="pipecond", target=tgt, status=rng.choice(["CLOSED", "OPEN"]), ref=rng.choice(pn),
+                                     flow=rng.choice([0.001, 0.01]), rel=rng.choice(["<", ">"])))
             else:
                 deg = {j: sum(1 for q in pipes if j in (q["a"], q["b"])) for j in placed}
                 low = [j for j in placed if deg[j] <= 2]
                 controls.append(dict(kind="rule", target=tgt, status=rng.choice(["CLOSED", "OPEN"]), ref=rng.choice(low if low and rng.random() < 0.7 else placed),
                                      pressure=rng.choice([5.0, 15.0, 30.0]), rel=rng.choice(["<", ">"])))
-    return dict(patterns=pats, nodes=nodes, pipes=pipes, pumps=pumps, valves=valves, controls=controls, grid=grid,
+    # a model default pattern that is not identically 1: entries with pattern None follow it, entries marked CONST were made constant
+    # through the public setter (`entry.pattern_name = None`) and must stay constant wherever skeletonize moves them
+    default_pattern = rng.choice([None, "p1", "p2"])
+    return dict(default_pattern=default_pattern, patterns=pats, nodes=nodes, pipes=pipes, pumps=pumps, valves=valves, controls=controls, grid=grid,
                 duration=3600 * rng.choice([0, 2, 4]), hyd=hyd)
 
 
@@ -196,6 +202,8 @@ def build(wntr, d):
     wn.options.time.report_timestep = 3600
     for k, v in d["patterns"].items():
         wn.add_pattern(k, v)
+    if d.get("default_pattern"):
+        wn.options.hydraulic.pattern = d["default_pattern"]
     for n in d["nodes"]:
         xy = tuple(n["xy"])
         if n["kind"] == "R":
@@ -204,12 +212,16 @@ def build(wntr, d):
             wn.add_tank(n["name"], elevation=n["elev"], init_level=3.0, min_level=0.5, max_level=6.0, diameter=8.0, coordinates=xy)
         else:
             b, p, cat = n["demands"][0]
-            wn.add_junction(n["name"], base_demand=b, demand_pattern=p, elevation=n["elev"], coordinates=xy, demand_category=cat)
+            pp = lambda x: None if x == "CONST" else x
+            wn.add_junction(n["name"], base_demand=b, demand_pattern=pp(p), elevation=n["elev"], coordinates=xy, demand_category=cat)
             j = wn.get_node(n["name"])
             if len(j.demand_timeseries_list) == 0:  # add_junction skips a zero base demand in some versions
-                j.add_demand(b, p, cat)
+                j.add_demand(b, pp(p), cat)
             for b, p, cat in n["demands"][1:]:
-                j.add_demand(b, p, cat)
+                j.add_demand(b, pp(p), cat)
+            for i, (b, p, cat) in enumerate(n["demands"]):
+                if p == "CONST":
+                    j.demand_timeseries_list[i].pattern_name = None
     for p in d["pipes"]:
         wn.add_pipe(p["name"], p["a"], p["b"], length=p["len"], diameter=p["diam"], roughness=p["rough"], minor_loss=p["minor"],
                     initial_status=p["status"], check_valve=p["cv"])
@@ -229,6 +241,8 @@ def build(wntr, d):
             wn.add_control("c%d" % i, c.Control(c.SimTimeCondition(wn, "=", k["at"]), act))
         elif k["kind"] == "tank":
             wn.add_control("c%d" % i, c.Control(c.ValueCondition(wn.get_node(k["ref"]), "level", k["rel"], k["level"]), act))
+        elif k["kind"] == "pipecond":
+            wn.add_control("c%d" % i, c.Rule(c.ValueCondition(wn.get_link(k["ref"]), "flow", k["rel"], k["flow"]), [act], name="c%d" % i))
         else:
             wn.add_control("c%d" % i, c.Rule(c.ValueCondition(wn.get_node(k["ref"]), "pressure", k["rel"], k["pressure"]), [act], name="c%d" % i))
     return wn
@@ -548,6 +562,13 @@ class SplitRunner:
                         failures.append(Failure("split-raises", "split/break of pipe %s at %r raises %s" % (case["pipe"], case["f"], res[2]), dict(rep, observed=res[2])))
                 if res2[0] != "error" or res2[1] != res[1]:
                     broken.append(Broken("correspondence", "split return_copy=False vs True", "outcomes differ: %s vs %s for %s" % (res2[:2], res[:2], case)))
+                if res2[0] == "error" and wc.to_dict() != d0:
+                    ctx.count("split:refused-call-modified-model")
+                    failures.append(Failure("split-refused-call-modifies-model",
+                                            "%s(return_copy=False) raised %s and left the model modified (nodes %d -> %d, links %s)" % (
+                                                "break_pipe" if case["brk"] else "split_pipe", res2[2], len(d0["nodes"]), wc.num_nodes,
+                                                [(l.name, l.start_node_name, l.end_node_name) for _, l in wc.links() if l.name == case["pipe"]]),
+                                            dict(rep, observed=res2[2])))
                 continue
             r = res[1].to_dict()
             if res[1] is wn:
@@ -857,7 +878,7 @@ def ctl_parts(d):
     """what every control of the description refers to: [cond refs, then refs, else refs], ref = ("n"|"l", name)"""
     out = []
     for k in d["controls"]:
-        cond = [("n", k["ref"])] if k["kind"] in ("tank", "rule") else []
+        cond = [("n", k["ref"])] if k["kind"] in ("tank", "rule") else [("l", k["ref"])] if k["kind"] == "pipecond" else []
         out.append(dict(cond=cond, then=[("l", k["target"])], els=[]))
     return out
 
@@ -911,7 +932,11 @@ def apply_history(wntr, wn, d, history, parts, ctx):
                 parts[h["ctl"]]["then"] = [("l", h["target"])]
                 edits.append("t,%d,l:%s" % (h["ctl"], h["target"]))
         elif h["op"] == "cond":
-            if h.get("ref"):
+            if h.get("refl"):
+                ctl.update_condition(c.ValueCondition(wn.get_link(h["refl"]), "flow", h["rel"], h["flow"]))
+                parts[h["ctl"]]["cond"] = [("l", h["refl"])]
+                edits.append("c,%d,l:%s" % (h["ctl"], h["refl"]))
+            elif h.get("ref"):
                 ctl.update_condition(c.ValueCondition(wn.get_node(h["ref"]), "pressure", h["rel"], h["pressure"]))
                 parts[h["ctl"]]["cond"] = [("n", h["ref"])]
                 edits.append("c,%d,n:%s" % (h["ctl"], h["ref"]))
@@ -940,11 +965,13 @@ def gen_skel_cfg(rng, d, thorough=False):
             i = rng.randrange(len(d["controls"]))
             if rng.random() < 0.6:
                 history.append(rng.choice(queries))
-            k = rng.choice(["else", "else", "then", "cond", "cond_time", "priority"])
+            k = rng.choice(["else", "else", "then", "cond", "cond_pipe", "cond_time", "priority"])
             if k in ("else", "then"):
                 history.append(dict(op=k, ctl=i, target=rng.choice(small if rng.random() < 0.8 else pn), status=rng.choice(["CLOSED", "OPEN"])))
             elif k == "cond":
                 history.append(dict(op="cond", ctl=i, ref=rng.choice(lowj), pressure=rng.choice([5.0, 20.0]), rel=rng.choice(["<", ">"])))
+            elif k == "cond_pipe":
+                history.append(dict(op="cond", ctl=i, refl=rng.choice(small if rng.random() < 0.8 else pn), flow=rng.choice([0.001, 0.01]), rel=rng.choice(["<", ">"])))
             elif k == "cond_time":
                 history.append(dict(op="cond", ctl=i, ref=None, at=3600 * rng.randint(1, 3)))
             else:
@@ -960,9 +987,10 @@ def gen_skel_cfg(rng, d, thorough=False):
 
 
 def total_expected(wntr, wn):
+    # a whole period of every pattern (lengths 1..4, step 1 h -> 12 h), whatever the simulation duration is
     with warnings.catch_warnings():
         warnings.simplefilter("ignore")
-        ed = wntr.metrics.expected_demand(wn)
+        ed = wntr.metrics.expected_demand(wn, start_time=0, end_time=12 * 3600, timestep=3600)
     return [(int(t), float(ed.loc[t].sum())) for t in ed.index]
 
 
@@ -1329,10 +1357,16 @@ class C19(Check):
         for i in range(n_split):
             d = gen_net(ctx.rng)
             sr.run_net(d, failures, broken, npipes=3, nfr=6 if ctx.quick else 8)
-            if i % 5 == 0:  # malformed stream: not a pipe, fraction outside [0,1], names in use
+            if i % 2 == 0:  # malformed stream: not a pipe, fraction outside [0,1], names in use
                 pn = d["pipes"][0]["name"]
                 other = (d["pumps"] + d["valves"] + [dict(name="nosuch")])[0]["name"]
-                bad = [dict(pipe=other, new_pipe="NP", newj=["NJ"], at_end=True, f=0.5, brk=False),
+                others = [o["name"] for o in d["pumps"] + d["valves"]]
+                special = [n["name"] for n in d["nodes"] if n["kind"] != "J"]
+                bad = [dict(pipe=pn, new_pipe=o, newj=["NJ", "NK"] if b_ else ["NJ"], at_end=ae, f=0.25, brk=b_)
+                       for o in others[:2] for ae, b_ in ((True, False), (False, True))]
+                bad += [dict(pipe=pn, new_pipe="NP", newj=[special[-1]], at_end=True, f=0.5, brk=False),
+                        dict(pipe=pn, new_pipe="NP", newj=["NJ", special[0]], at_end=False, f=0.5, brk=True)]
+                bad += [dict(pipe=other, new_pipe="NP", newj=["NJ"], at_end=True, f=0.5, brk=False),
                        dict(pipe=pn, new_pipe="NP", newj=["NJ"], at_end=True, f=ctx.rng.choice([-0.25, 1.5]), brk=False),
                        dict(pipe=pn, new_pipe="NP", newj=["J1"], at_end=False, f=0.5, brk=False),
                        dict(pipe=pn, new_pipe=pn, newj=["NJ", "NK"], at_end=False, f=0.5, brk=True),
